@@ -1292,9 +1292,37 @@ func (e *Engine) summariseLoop(st *State, fr *frame, b *ssa.BasicBlock, ifi *ssa
 		}
 	}
 	// the iteration must not modify variables that outlive it
+	// (except: a field of a record that the loop only ever WRITES — "note the interlace byte on
+	// the way past" — holds, after the loop, whatever some iteration put there: it is given an
+	// unknown value; nothing in the loop may read it, so no iteration depends on another)
+	type setField struct {
+		c *Cell
+		i int
+	}
+	var setInLoop []setField
 	for _, bk := range backs {
 		for c, kBefore := range memBefore {
-			if v, ok := bk.St.mem[c]; !ok || valKey(v) != kBefore {
+			v, ok := bk.St.mem[c]
+			if ok && valKey(v) == kBefore {
+				continue
+			}
+			okW := false
+			if a1, isA := v.(*Agg); ok && isA && !e.GenericLoops {
+				if a0, isA0 := st.mem[c].(*Agg); isA0 && len(a0.Elems) == len(a1.Elems) {
+					okW = true
+					for i := range a1.Elems {
+						if valKey(a0.Elems[i]) == valKey(a1.Elems[i]) {
+							continue
+						}
+						if !e.writeOnlyInLoop(b, c, i) {
+							okW = false
+							break
+						}
+						setInLoop = append(setInLoop, setField{c, i})
+					}
+				}
+			}
+			if !okW {
 				return fail("the loop body modifies variable " + c.Name + " that outlives the iteration (shared between iterations / workers)")
 			}
 		}
@@ -1359,6 +1387,16 @@ func (e *Engine) summariseLoop(st *State, fr *frame, b *ssa.BasicBlock, ifi *ssa
 		st.pos[s] = b0.Add(trips.Mul(d))
 	}
 	st.addEvent(Event{Kind: "loop-summary", Fn: "loop", Args: []Val{first, limit, stepV, k}, Pos: e.condPos(ifi)})
+	for _, sf := range setInLoop {
+		if a, ok := e.cellVal(st, sf.c).(*Agg); ok && sf.i < len(a.Elems) {
+			if stt, ok := sf.c.Type.Underlying().(*types.Struct); ok && sf.i < stt.NumFields() {
+				e.nextCell++
+				na := &Agg{Type: a.Type, Elems: append([]Val(nil), a.Elems...)}
+				na.Elems[sf.i] = e.SymVal(fmt.Sprintf("set-in-loop#%d.%s", e.nextCell, stt.Field(sf.i).Name()), stt.Field(sf.i).Type())
+				st.mem[sf.c] = na
+			}
+		}
+	}
 	for _, f := range facts {
 		st.events = append(st.events, f)
 	}
@@ -1526,4 +1564,54 @@ func (e *Engine) pixOffsetForm(st *State, img Val, recvT types.Type, bpp int64, 
 		return nil, false
 	}
 	return y.Sub(minY).Mul(sf).Add(x.Sub(minX).Mul(formInt(bpp))), true
+}
+
+// writeOnlyInLoop: inside the natural loop headed by b, field i of the struct held in
+// cell c is stored to but never loaded, and no pointer to a struct of that type is
+// handed to a call (which could read it).
+func (e *Engine) writeOnlyInLoop(b *ssa.BasicBlock, c *Cell, i int) bool {
+	stt, ok := c.Type.Underlying().(*types.Struct)
+	if !ok || i >= stt.NumFields() {
+		return false
+	}
+	body := loopsOf(b.Parent())[b]
+	if len(body) == 0 {
+		return false
+	}
+	sameStruct := func(t types.Type) bool {
+		pt, ok := t.Underlying().(*types.Pointer)
+		return ok && types.Identical(pt.Elem(), c.Type)
+	}
+	for blk := range body {
+		for _, in := range blk.Instrs {
+			switch x := in.(type) {
+			case *ssa.FieldAddr:
+				if !sameStruct(x.X.Type()) || x.Field != i {
+					continue
+				}
+				for _, ref := range *x.Referrers() {
+					if st, ok := ref.(*ssa.Store); ok && st.Addr == ssa.Value(x) {
+						continue
+					}
+					return false
+				}
+			case ssa.CallInstruction:
+				cc := x.Common()
+				vals := append([]ssa.Value{}, cc.Args...)
+				if cc.IsInvoke() {
+					vals = append(vals, cc.Value)
+				}
+				for _, v := range vals {
+					if sameStruct(v.Type()) {
+						return false
+					}
+				}
+			case *ssa.UnOp:
+				if x.Op == token.MUL && sameStruct(x.X.Type()) {
+					return false // the whole record is loaded
+				}
+			}
+		}
+	}
+	return true
 }
